@@ -1,1 +1,1187 @@
-fn main() { unimplemented!() }
+//! C20 — derived argument parsers (`#[derive(ArgParse)]`, `#[derive(Subcommand)]`).
+//!
+//! Bounded-exhaustive enumeration (engine E4) on the REAL derive output: the family
+//! of structs/enums in `shapes.rs` is expanded by the proc-macro of the repository
+//! at build time.  Every shape carries a small hand-written description of its
+//! declared grammar (`Grammar`); renderer, recogniser and value model below work
+//! from that description only and share no code with the derive.
+//!
+//! Sweep 1 (round trip): every assignment of field values from small per-field
+//!   domains, rendered in every order of the option occurrences and every
+//!   long/short alias form, must parse to `Ok` with equal values.
+//! Sweep 2 (grammar / robustness): every argument list up to a length bound over the
+//!   shape's token alphabet; no panic, `Ok` only for lists the declared grammar can
+//!   account for, `Err` renders and starts with the relevant help text.
+
+use common::*;
+use serde_json::{json, Value};
+use std::cell::RefCell;
+use std::collections::HashMap;
+use tiny_std::unix::cli::ArgParse;
+use tiny_std::UnixStr;
+
+mod shapes;
+
+// ---------------------------------------------------------------------------
+// declared grammar of a shape (independent description)
+
+pub type Tok = &'static [u8];
+
+#[derive(Clone, Copy, PartialEq, Debug)]
+pub enum Ty {
+    /// `&'static UnixStr`: any byte string
+    Unix,
+    /// `&'static str` / `String`: UTF-8
+    Str,
+    /// `UnixString` (converted through `FromStr`, i.e. through `&str`): UTF-8 certainly
+    /// accepted; whether a non-UTF-8 argument is a value is left open by the declaration
+    UnixString,
+    /// integer with inclusive range
+    Int(i128, i128),
+}
+
+#[derive(Clone, Copy, PartialEq, Debug)]
+pub enum Kind {
+    Req,
+    Opt,
+    Rep,
+    Flag,
+}
+
+pub struct OptD {
+    pub long: Option<&'static str>,
+    pub short: Option<&'static str>,
+    pub kind: Kind,
+    pub ty: Ty,
+    /// value domain of sweep 1, quick tier
+    pub dom: &'static [Tok],
+}
+pub struct PosD {
+    pub required: bool,
+    pub ty: Ty,
+    pub dom: &'static [Tok],
+}
+pub struct SubD {
+    pub required: bool,
+    pub cmds: Vec<(&'static str, Option<Grammar>)>,
+}
+pub struct Grammar {
+    /// pre-order index of this struct in the shape's tree (index into the help texts)
+    pub id: usize,
+    pub opts: Vec<OptD>,
+    pub pos: Vec<PosD>,
+    pub sub: Option<SubD>,
+}
+
+impl OptD {
+    fn lits(&self) -> Vec<&'static str> {
+        self.long.iter().chain(self.short.iter()).copied().collect()
+    }
+}
+
+fn number(g: &mut Grammar, next: &mut usize) {
+    g.id = *next;
+    *next += 1;
+    if let Some(s) = &mut g.sub {
+        for (_, inner) in &mut s.cmds {
+            if let Some(ig) = inner {
+                number(ig, next);
+            }
+        }
+    }
+}
+
+fn levels<'a>(g: &'a Grammar, out: &mut Vec<&'a Grammar>) {
+    out.push(g);
+    if let Some(s) = &g.sub {
+        for (_, inner) in &s.cmds {
+            if let Some(ig) = inner {
+                levels(ig, out);
+            }
+        }
+    }
+}
+
+// ---------------------------------------------------------------------------
+// value model
+
+#[derive(Clone, PartialEq, Debug)]
+pub enum V {
+    B(Vec<u8>),
+    I(i128),
+}
+#[derive(Clone, PartialEq, Debug)]
+pub enum F {
+    Flag(bool),
+    One(Option<V>),
+    Many(Vec<V>),
+}
+/// One struct level: option fields in declaration order, positional slots, subcommand
+/// (index of the command + its inner struct when the variant carries one).
+#[derive(Clone, PartialEq, Debug, Default)]
+pub struct M {
+    pub opts: Vec<F>,
+    pub pos: Vec<Option<V>>,
+    pub sub: Option<(usize, Option<Box<M>>)>,
+}
+
+pub enum Outcome {
+    Ok(M, usize),
+    Err { text: Result<String, String>, debug_ok: bool },
+    Panic(String),
+}
+
+pub trait ToM {
+    fn to_m(&self) -> M;
+}
+
+/// Parse with the derived parser under `catch`; errors are rendered (also under `catch`).
+pub fn run<T: ArgParse + ToM>(args: &[&'static UnixStr]) -> Outcome {
+    let res = catch(|| {
+        let mut it = args.iter().copied();
+        let r = T::arg_parse(&mut it);
+        let left = it.count();
+        (r.map(|t| t.to_m()), left)
+    });
+    match res {
+        Err(p) => Outcome::Panic(p),
+        Ok((Ok(m), left)) => Outcome::Ok(m, left),
+        Ok((Err(e), _)) => {
+            let text = catch(|| e.to_string());
+            let debug_ok = catch(|| format!("{e:?}")).is_ok();
+            Outcome::Err { text, debug_ok }
+        }
+    }
+}
+
+pub fn help_of<T: ArgParse>() -> String
+where
+    T::HelpPrinter: 'static,
+{
+    format!("{}", T::help_printer())
+}
+
+pub struct Shape {
+    pub name: &'static str,
+    pub g: Grammar,
+    pub parse: fn(&[&'static UnixStr]) -> Outcome,
+    /// help text of every struct of the tree, pre-order (same numbering as `Grammar::id`)
+    pub helps: fn() -> Vec<String>,
+}
+
+// ---------------------------------------------------------------------------
+// tokens
+
+pub const L200: &[u8] = &[b'7'; 200];
+
+thread_local! {
+    static INTERN: RefCell<HashMap<Vec<u8>, &'static UnixStr>> = RefCell::new(HashMap::new());
+}
+
+/// `&'static UnixStr` for a NUL-free byte string (leaked once per thread and token).
+fn intern(b: &[u8]) -> &'static UnixStr {
+    INTERN.with(|t| {
+        let mut t = t.borrow_mut();
+        if let Some(u) = t.get(b) {
+            return *u;
+        }
+        assert!(!b.contains(&0));
+        let mut v = b.to_vec();
+        v.push(0);
+        let leaked: &'static [u8] = Box::leak(v.into_boxed_slice());
+        let u = UnixStr::try_from_bytes(leaked).expect("interned token");
+        t.insert(b.to_vec(), u);
+        u
+    })
+}
+
+fn content(u: &UnixStr) -> &[u8] {
+    let s = u.as_slice();
+    &s[..s.len() - 1]
+}
+
+// ---------------------------------------------------------------------------
+// what a token means as a value of a declared type (independent of the derive)
+
+enum Val {
+    Good(V),
+    Bad,
+    /// the declaration does not settle it; either outcome is accepted
+    Open,
+}
+
+fn int_of(tok: &[u8], min: i128, max: i128) -> Option<i128> {
+    let (neg, digits) = match tok.first() {
+        Some(b'-') if min < 0 => (true, &tok[1..]),
+        Some(b'+') => (false, &tok[1..]),
+        _ => (false, tok),
+    };
+    if digits.is_empty() || !digits.iter().all(u8::is_ascii_digit) {
+        return None;
+    }
+    let mut acc: i128 = 0;
+    for d in digits {
+        let d = (d - b'0') as i128;
+        acc = acc.checked_mul(10)?;
+        acc = if neg { acc.checked_sub(d)? } else { acc.checked_add(d)? };
+    }
+    if acc < min || acc > max {
+        return None;
+    }
+    Some(acc)
+}
+
+fn value_of(ty: Ty, tok: &[u8]) -> Val {
+    let utf8 = std::str::from_utf8(tok).is_ok();
+    match ty {
+        Ty::Unix => Val::Good(V::B(tok.to_vec())),
+        Ty::Str => {
+            if utf8 {
+                Val::Good(V::B(tok.to_vec()))
+            } else {
+                Val::Bad
+            }
+        }
+        Ty::UnixString => {
+            if utf8 {
+                Val::Good(V::B(tok.to_vec()))
+            } else {
+                Val::Open
+            }
+        }
+        Ty::Int(min, max) => match int_of(tok, min, max) {
+            Some(i) => Val::Good(V::I(i)),
+            None => Val::Bad,
+        },
+    }
+}
+
+// ---------------------------------------------------------------------------
+// recogniser: a left-to-right account of an argument list under the declared grammar
+
+/// What the grammar collected: per option field the values of its occurrences in
+/// order (a flag occurrence is `I(1)`), positional values, subcommand occurrences.
+#[derive(Default, Debug)]
+struct Acct {
+    occ: Vec<Vec<V>>,
+    pos: Vec<V>,
+    subs: Vec<(usize, Option<Acct>)>,
+}
+
+#[derive(Clone, Copy, PartialEq, Debug)]
+enum Why {
+    /// help token in option position, at the struct level with this id
+    Help(usize),
+    Unknown,
+    MissingValue,
+    Malformed,
+    MissingRequired,
+}
+
+#[derive(Default, Clone, Copy, Debug)]
+struct Flags {
+    /// the list uses something whose acceptance the declaration leaves open (single-valued
+    /// option or subcommand given twice, tokens after a unit subcommand, option-like token in
+    /// a positional slot, `Val::Open`): either outcome is accepted
+    open: bool,
+    /// some option's value starts with '-'
+    optlike_value: bool,
+}
+
+fn is_help(t: &[u8]) -> bool {
+    t == b"-h" || t == b"--help"
+}
+
+fn scan(g: &Grammar, toks: &[&[u8]], fl: &mut Flags) -> Result<Acct, Why> {
+    let mut a = Acct { occ: vec![Vec::new(); g.opts.len()], pos: Vec::new(), subs: Vec::new() };
+    let mut after_unit = false;
+    let mut i = 0;
+    while i < toks.len() {
+        let t = toks[i];
+        if after_unit {
+            fl.open = true;
+        }
+        if let Some(k) = g.opts.iter().position(|o| o.lits().iter().any(|l| l.as_bytes() == t)) {
+            let o = &g.opts[k];
+            if o.kind == Kind::Flag {
+                a.occ[k].push(V::I(1));
+                i += 1;
+                continue;
+            }
+            let Some(v) = toks.get(i + 1) else { return Err(Why::MissingValue) };
+            let val = match value_of(o.ty, v) {
+                Val::Good(x) => x,
+                Val::Bad => return Err(Why::Malformed),
+                Val::Open => {
+                    fl.open = true;
+                    V::B(v.to_vec())
+                }
+            };
+            if v.first() == Some(&b'-') {
+                fl.optlike_value = true;
+            }
+            if o.kind != Kind::Rep && !a.occ[k].is_empty() {
+                fl.open = true;
+            }
+            a.occ[k].push(val);
+            i += 2;
+        } else if is_help(t) {
+            return Err(Why::Help(g.id));
+        } else if let Some((j, inner)) =
+            g.sub.as_ref().and_then(|s| s.cmds.iter().position(|c| c.0.as_bytes() == t).map(|j| (j, &s.cmds[j].1)))
+        {
+            if !a.subs.is_empty() {
+                fl.open = true;
+            }
+            match inner {
+                Some(ig) => {
+                    let ia = scan(ig, &toks[i + 1..], fl)?;
+                    a.subs.push((j, Some(ia)));
+                    i = toks.len();
+                }
+                None => {
+                    a.subs.push((j, None));
+                    after_unit = true;
+                    i += 1;
+                }
+            }
+        } else if a.pos.len() < g.pos.len() {
+            let slot = &g.pos[a.pos.len()];
+            let val = match value_of(slot.ty, t) {
+                Val::Good(x) => x,
+                Val::Bad => return Err(Why::Malformed),
+                Val::Open => {
+                    fl.open = true;
+                    V::B(t.to_vec())
+                }
+            };
+            if t.first() == Some(&b'-') {
+                // could equally be called an unknown option
+                fl.open = true;
+            }
+            a.pos.push(val);
+            i += 1;
+        } else {
+            return Err(Why::Unknown);
+        }
+    }
+    for (k, o) in g.opts.iter().enumerate() {
+        if o.kind == Kind::Req && a.occ[k].is_empty() {
+            return Err(Why::MissingRequired);
+        }
+    }
+    for (k, p) in g.pos.iter().enumerate() {
+        if p.required && a.pos.len() <= k {
+            return Err(Why::MissingRequired);
+        }
+    }
+    if let Some(s) = &g.sub {
+        if s.required && a.subs.is_empty() {
+            return Err(Why::MissingRequired);
+        }
+    }
+    Ok(a)
+}
+
+/// Is the parsed value `m` one that the account `a` allows?
+fn consistent(g: &Grammar, m: &M, a: &Acct) -> bool {
+    if m.opts.len() != g.opts.len() || m.pos.len() != g.pos.len() {
+        return false;
+    }
+    for (k, o) in g.opts.iter().enumerate() {
+        let occ = &a.occ[k];
+        let ok = match (&m.opts[k], o.kind) {
+            (F::Flag(b), Kind::Flag) => *b == !occ.is_empty(),
+            (F::One(None), Kind::Opt) => occ.is_empty(),
+            (F::One(Some(v)), Kind::Opt | Kind::Req) => occ.contains(v),
+            (F::Many(vs), Kind::Rep) => vs == occ,
+            _ => false,
+        };
+        if !ok {
+            return false;
+        }
+    }
+    for k in 0..g.pos.len() {
+        if m.pos[k].as_ref() != a.pos.get(k) {
+            return false;
+        }
+    }
+    match (&m.sub, &g.sub) {
+        (None, _) => a.subs.is_empty(),
+        (Some(_), None) => false,
+        (Some((j, inner)), Some(sd)) => a.subs.iter().any(|(aj, ai)| {
+            aj == j
+                && match (inner, ai, &sd.cmds[*j].1) {
+                    (None, None, None) => true,
+                    (Some(im), Some(ia), Some(ig)) => consistent(ig, im, ia),
+                    _ => false,
+                }
+        }),
+    }
+}
+
+/// The value denoted by an account without open choices.
+fn model_of(g: &Grammar, a: &Acct) -> M {
+    M {
+        opts: g
+            .opts
+            .iter()
+            .enumerate()
+            .map(|(k, o)| match o.kind {
+                Kind::Flag => F::Flag(!a.occ[k].is_empty()),
+                Kind::Rep => F::Many(a.occ[k].clone()),
+                _ => F::One(a.occ[k].last().cloned()),
+            })
+            .collect(),
+        pos: (0..g.pos.len()).map(|k| a.pos.get(k).cloned()).collect(),
+        sub: a.subs.last().map(|(j, ia)| {
+            let ig = g.sub.as_ref().unwrap().cmds[*j].1.as_ref();
+            (*j, ia.as_ref().map(|x| Box::new(model_of(ig.unwrap(), x))))
+        }),
+    }
+}
+
+// ---------------------------------------------------------------------------
+// sweep 1: assignment space and renderer
+
+fn push_unique(v: &mut Vec<Vec<u8>>, t: &[u8]) {
+    if !v.iter().any(|x| x == t) {
+        v.push(t.to_vec());
+    }
+}
+
+/// Value domain of a field: the quick tier uses the 2–5 hand-picked values of the
+/// declaration, the thorough tier the full ladder of its type (which contains them).
+fn domain(ty: Ty, dom: &[Tok], after_option: bool, own_lit: Option<&str>, thorough: bool) -> Vec<Vec<u8>> {
+    let mut v: Vec<Vec<u8>> = Vec::new();
+    if !thorough {
+        for d in dom {
+            push_unique(&mut v, d);
+        }
+        return v;
+    }
+    match ty {
+        Ty::Int(min, max) => {
+            for t in [&b"7"[..], b"0"] {
+                push_unique(&mut v, t);
+            }
+            push_unique(&mut v, max.to_string().as_bytes());
+            for d in dom.iter().filter(|d| d.first() != Some(&b'-')) {
+                push_unique(&mut v, d);
+            }
+            if after_option && min < 0 {
+                push_unique(&mut v, b"-5");
+                push_unique(&mut v, min.to_string().as_bytes());
+            }
+            for d in dom {
+                push_unique(&mut v, d);
+            }
+        }
+        _ => {
+            for t in [&b"x"[..], b"", L200, "é".as_bytes()] {
+                push_unique(&mut v, t);
+            }
+            if ty == Ty::Unix {
+                push_unique(&mut v, b"\xff\xfe");
+            }
+            for d in dom.iter().filter(|d| d.first() != Some(&b'-')) {
+                push_unique(&mut v, d);
+            }
+            if after_option {
+                for t in [&b"-x"[..], b"--help", b"-h"] {
+                    push_unique(&mut v, t);
+                }
+                if let Some(l) = own_lit {
+                    push_unique(&mut v, l.as_bytes());
+                }
+            }
+            for d in dom {
+                push_unique(&mut v, d);
+            }
+        }
+    }
+    v
+}
+
+/// Cartesian space of raw assignments (values are still argument byte strings) of one struct level.
+struct Space {
+    opt_choices: Vec<Vec<F>>,
+    pos_choices: Vec<Vec<Option<V>>>,
+    sub_choices: Vec<Option<(usize, Option<Box<M>>)>>,
+}
+
+impl Space {
+    fn new(g: &Grammar, thorough: bool, max_rep: usize) -> Space {
+        let mut opt_choices = Vec::new();
+        for o in &g.opts {
+            let dom: Vec<V> =
+                domain(o.ty, o.dom, true, o.lits().first().copied(), thorough).into_iter().map(V::B).collect();
+            let ch: Vec<F> = match o.kind {
+                Kind::Flag => vec![F::Flag(false), F::Flag(true)],
+                Kind::Req => dom.iter().map(|v| F::One(Some(v.clone()))).collect(),
+                Kind::Opt => std::iter::once(F::One(None)).chain(dom.iter().map(|v| F::One(Some(v.clone())))).collect(),
+                Kind::Rep => {
+                    let mut c = Vec::new();
+                    for_each_seq(dom.len(), max_rep, |s| c.push(F::Many(s.iter().map(|&i| dom[i].clone()).collect())));
+                    c
+                }
+            };
+            opt_choices.push(ch);
+        }
+        let mut pos_choices = Vec::new();
+        for p in &g.pos {
+            let dom = domain(p.ty, p.dom, false, None, thorough);
+            let mut ch: Vec<Option<V>> = Vec::new();
+            if !p.required {
+                ch.push(None);
+            }
+            ch.extend(dom.into_iter().map(|d| Some(V::B(d))));
+            pos_choices.push(ch);
+        }
+        let mut sub_choices = Vec::new();
+        match &g.sub {
+            None => sub_choices.push(None),
+            Some(sd) => {
+                if !sd.required {
+                    sub_choices.push(None);
+                }
+                for (j, (_, inner)) in sd.cmds.iter().enumerate() {
+                    match inner {
+                        None => sub_choices.push(Some((j, None))),
+                        Some(ig) => {
+                            let sp = Space::new(ig, thorough, max_rep);
+                            for n in 0..sp.size() {
+                                sub_choices.push(Some((j, Some(Box::new(sp.get(n))))));
+                            }
+                        }
+                    }
+                }
+            }
+        }
+        Space { opt_choices, pos_choices, sub_choices }
+    }
+    fn size(&self) -> u64 {
+        let mut n = self.sub_choices.len() as u64;
+        for c in &self.opt_choices {
+            n *= c.len() as u64;
+        }
+        for c in &self.pos_choices {
+            n *= c.len() as u64;
+        }
+        n
+    }
+    /// mixed-radix decode; index 0 is the first (simplest) choice of every field
+    fn get(&self, mut n: u64) -> M {
+        let mut m = M::default();
+        for c in &self.opt_choices {
+            m.opts.push(c[(n % c.len() as u64) as usize].clone());
+            n /= c.len() as u64;
+        }
+        for c in &self.pos_choices {
+            m.pos.push(c[(n % c.len() as u64) as usize].clone());
+            n /= c.len() as u64;
+        }
+        m.sub = self.sub_choices[n as usize].clone();
+        m
+    }
+}
+
+fn raw_bytes(v: &V) -> &[u8] {
+    match v {
+        V::B(b) => b,
+        V::I(_) => unreachable!("raw assignment holds argument bytes"),
+    }
+}
+
+/// The typed value a raw assignment denotes (what the parser must give back).
+fn typed(g: &Grammar, m: &M) -> M {
+    let conv = |ty: Ty, v: &V| match value_of(ty, raw_bytes(v)) {
+        Val::Good(x) => x,
+        _ => panic!("harness: domain value {} is not a value of {ty:?}", show_bytes(raw_bytes(v))),
+    };
+    M {
+        opts: g
+            .opts
+            .iter()
+            .zip(&m.opts)
+            .map(|(o, f)| match f {
+                F::Flag(b) => F::Flag(*b),
+                F::One(v) => F::One(v.as_ref().map(|v| conv(o.ty, v))),
+                F::Many(vs) => F::Many(vs.iter().map(|v| conv(o.ty, v)).collect()),
+            })
+            .collect(),
+        pos: g.pos.iter().zip(&m.pos).map(|(p, v)| v.as_ref().map(|v| conv(p.ty, v))).collect(),
+        sub: m.sub.as_ref().map(|(j, im)| {
+            let ig = g.sub.as_ref().unwrap().cmds[*j].1.as_ref();
+            (*j, im.as_ref().map(|x| Box::new(typed(ig.unwrap(), x))))
+        }),
+    }
+}
+
+fn has_optlike_value(m: &M) -> bool {
+    let ol = |v: &V| raw_bytes(v).first() == Some(&b'-');
+    m.opts.iter().any(|f| match f {
+        F::Flag(_) => false,
+        F::One(v) => v.as_ref().is_some_and(ol),
+        F::Many(vs) => vs.iter().any(ol),
+    }) || m.sub.as_ref().is_some_and(|(_, im)| im.as_ref().is_some_and(|x| has_optlike_value(x)))
+}
+
+struct Item {
+    /// one token list per alias form
+    forms: Vec<Vec<&'static UnixStr>>,
+    /// items of one group keep their relative order (occurrences of one repeated option; the positionals)
+    group: Option<usize>,
+}
+
+fn items_of(g: &Grammar, m: &M) -> Vec<Item> {
+    let mut items = Vec::new();
+    for (k, (o, f)) in g.opts.iter().zip(&m.opts).enumerate() {
+        let lits = o.lits();
+        match f {
+            F::Flag(false) | F::One(None) => {}
+            F::Flag(true) => items.push(Item { forms: lits.iter().map(|l| vec![intern(l.as_bytes())]).collect(), group: None }),
+            F::One(Some(v)) => items.push(Item {
+                forms: lits.iter().map(|l| vec![intern(l.as_bytes()), intern(raw_bytes(v))]).collect(),
+                group: None,
+            }),
+            F::Many(vs) => {
+                for v in vs {
+                    items.push(Item {
+                        forms: lits.iter().map(|l| vec![intern(l.as_bytes()), intern(raw_bytes(v))]).collect(),
+                        group: Some(k),
+                    });
+                }
+            }
+        }
+    }
+    for v in m.pos.iter().flatten() {
+        items.push(Item { forms: vec![vec![intern(raw_bytes(v))]], group: Some(usize::MAX) });
+    }
+    items
+}
+
+thread_local! {
+    static PERMS: RefCell<HashMap<usize, std::rc::Rc<Vec<Vec<usize>>>>> = RefCell::new(HashMap::new());
+}
+fn perms(n: usize) -> std::rc::Rc<Vec<Vec<usize>>> {
+    PERMS.with(|p| p.borrow_mut().entry(n).or_insert_with(|| std::rc::Rc::new(permutations(n))).clone())
+}
+
+/// `perm[slot] = item`; valid when the items of every group appear in increasing item order.
+fn order_ok(items: &[Item], perm: &[usize]) -> bool {
+    for (a, &ia) in perm.iter().enumerate() {
+        for &ib in &perm[a + 1..] {
+            if ib < ia && items[ia].group.is_some() && items[ia].group == items[ib].group {
+                return false;
+            }
+        }
+    }
+    true
+}
+
+/// Every rendering of the assignment: every admissible order of the items of a level, every
+/// alias form of every option occurrence, the subcommand (and recursively its struct) last.
+fn for_each_rendering(g: &Grammar, m: &M, prefix: &mut Vec<&'static UnixStr>, f: &mut dyn FnMut(&[&'static UnixStr])) {
+    let items = items_of(g, m);
+    assert!(items.len() <= 7, "harness: too many items at one level");
+    let all = perms(items.len());
+    let radix: Vec<usize> = items.iter().map(|i| i.forms.len()).collect();
+    let n_forms: usize = radix.iter().product();
+    for perm in all.iter().filter(|p| order_ok(&items, p)) {
+        for mut code in 0..n_forms {
+            let base = prefix.len();
+            let mut form = vec![0usize; items.len()];
+            for (k, r) in radix.iter().enumerate() {
+                form[k] = code % r;
+                code /= r;
+            }
+            for &it in perm {
+                prefix.extend_from_slice(&items[it].forms[form[it]]);
+            }
+            match &m.sub {
+                None => f(prefix),
+                Some((j, inner)) => {
+                    let (lit, ig) = &g.sub.as_ref().unwrap().cmds[*j];
+                    prefix.push(intern(lit.as_bytes()));
+                    match inner {
+                        None => f(prefix),
+                        Some(im) => for_each_rendering(ig.as_ref().unwrap(), im, prefix, f),
+                    }
+                }
+            }
+            prefix.truncate(base);
+        }
+    }
+}
+
+fn shown(args: &[&'static UnixStr]) -> Vec<String> {
+    args.iter().map(|a| show_bytes(content(a))).collect()
+}
+
+fn case_json(sh: &Shape, sweep: &str, args: &[&'static UnixStr]) -> Value {
+    json!({"shape": sh.name, "sweep": sweep, "args": shown(args)})
+}
+
+fn brief(args: &[&'static UnixStr]) -> String {
+    let mut s = String::from("[");
+    for (i, a) in args.iter().enumerate() {
+        if i > 0 {
+            s.push_str(", ");
+        }
+        let c = content(a);
+        if c.len() > 40 {
+            s.push_str(&format!("<{} bytes {}…>", c.len(), show_bytes(&c[..8])));
+        } else {
+            s.push_str(&format!("{:?}", show_bytes(c)));
+        }
+    }
+    s.push(']');
+    s
+}
+
+fn check_err_render(sh: &Shape, helps: &[String], want_level: Option<usize>, args: &[&'static UnixStr], sweep: &str, text: &Result<String, String>, debug_ok: bool, r: &mut Report) {
+    let key = |k: &str| format!("C20:{}:{k}", sh.name);
+    match text {
+        Err(p) => r.violation(&key("error-render-panic"), format!("{} on {}: Display of the error panicked: {p}", sh.name, brief(args)), case_json(sh, sweep, args)),
+        Ok(t) => {
+            let ok = match want_level {
+                Some(l) => t.starts_with(helps[l].as_str()),
+                None => helps.iter().any(|h| t.starts_with(h.as_str())),
+            };
+            if !ok {
+                r.violation(
+                    &key("error-without-help"),
+                    format!(
+                        "{} on {}: the rendered error does not start with the help text of {}; rendered: {:?}",
+                        sh.name,
+                        brief(args),
+                        match want_level {
+                            Some(l) => format!("the struct the help request was addressed to (level {l})"),
+                            None => "any struct of the shape".to_string(),
+                        },
+                        t.chars().take(200).collect::<String>()
+                    ),
+                    case_json(sh, sweep, args),
+                );
+            }
+        }
+    }
+    if !debug_ok {
+        r.violation(&key("error-render-panic"), format!("{} on {}: Debug of the error panicked", sh.name, brief(args)), case_json(sh, sweep, args));
+    }
+}
+
+/// Sweep 1 oracle for one rendering: must be `Ok` with exactly the expected values.
+fn check_roundtrip(sh: &Shape, helps: &[String], args: &[&'static UnixStr], want: &M, optlike: bool, r: &mut Report) {
+    r.eval();
+    r.nontrivial_unique();
+    let key = |k: &str| format!("C20:{}:{k}", sh.name);
+    let out = (sh.parse)(args);
+    match out {
+        Outcome::Panic(p) => {
+            r.outcome("rt-panic");
+            r.violation(&key("panic"), format!("{} panicked on {}: {p}", sh.name, brief(args)), case_json(sh, "roundtrip", args));
+        }
+        Outcome::Ok(m, left) => {
+            if left > 0 {
+                r.violation(&key("ok-arguments-left-unread"), format!("{} returned Ok on {} leaving {left} arguments unread", sh.name, brief(args)), case_json(sh, "roundtrip", args));
+            }
+            if &m == want {
+                r.outcome(if optlike { "rt-ok-optionlike-value" } else { "rt-ok" });
+            } else {
+                r.outcome("rt-mismatch");
+                r.violation(
+                    &key(if optlike { "roundtrip-optionlike-value" } else { "roundtrip-mismatch" }),
+                    format!("{} parsed {} to {m:?}, rendered from {want:?}", sh.name, brief(args)),
+                    case_json(sh, "roundtrip", args),
+                );
+            }
+        }
+        Outcome::Err { text, debug_ok } => {
+            r.outcome("rt-rejected");
+            r.violation(
+                &key(if optlike { "roundtrip-optionlike-value" } else { "roundtrip-rejected" }),
+                format!(
+                    "{} rejected {} (a rendering of {want:?}): {:?}",
+                    sh.name,
+                    brief(args),
+                    text.as_ref().map(|t| t.lines().last().unwrap_or("").to_string())
+                ),
+                case_json(sh, "roundtrip", args),
+            );
+            check_err_render(sh, helps, None, args, "roundtrip", &text, debug_ok, r);
+        }
+    }
+}
+
+fn roundtrip_chunk(sh: &Shape, helps: &[String], thorough: bool, chunk: u64, nchunks: u64) -> Report {
+    let mut r = Report::new();
+    let sp = Space::new(&sh.g, thorough, 2);
+    let size = sp.size();
+    // contiguous index ranges, so that merging the chunks in order keeps the enumeration simplest-first
+    let (mut n, end) = (chunk * size / nchunks, (chunk + 1) * size / nchunks);
+    let mut first = true;
+    while n < end {
+        let raw = sp.get(n);
+        let want = typed(&sh.g, &raw);
+        let optlike = has_optlike_value(&raw);
+        let mut prefix = Vec::new();
+        for_each_rendering(&sh.g, &raw, &mut prefix, &mut |args| {
+            // machinery self-check: renderer and recogniser (both the harness's) must agree
+            let bytes: Vec<&[u8]> = args.iter().map(|a| content(a)).collect();
+            let mut fl = Flags::default();
+            match scan(&sh.g, &bytes, &mut fl) {
+                Ok(a) if !fl.open && model_of(&sh.g, &a) == want => {}
+                other => panic!("harness: recogniser does not account for rendering {} of {want:?}: {other:?} {fl:?}", brief(args)),
+            }
+            check_roundtrip(sh, helps, args, &want, optlike, &mut r);
+            if first && n == size / 2 && sh.g.opts.len() % 2 == 1 {
+                first = false;
+                r.sample(json!({"shape": sh.name, "sweep": "roundtrip", "args": shown(args), "values": format!("{want:?}")}));
+            }
+        });
+        n += 1;
+    }
+    r
+}
+
+// ---------------------------------------------------------------------------
+// sweep 2
+
+fn alphabet(g: &Grammar) -> Vec<Vec<u8>> {
+    let mut lv = Vec::new();
+    levels(g, &mut lv);
+    // simplest tokens first: the first list reported under a violation key is the replay artefact
+    let mut v: Vec<Vec<u8>> = Vec::new();
+    for t in [&b"7"[..], b"12x", b""] {
+        push_unique(&mut v, t);
+    }
+    let mut signed = false;
+    for l in &lv {
+        for o in &l.opts {
+            for lit in o.lits() {
+                push_unique(&mut v, lit.as_bytes());
+            }
+            signed |= matches!(o.ty, Ty::Int(min, _) if min < 0);
+        }
+        signed |= l.pos.iter().any(|p| matches!(p.ty, Ty::Int(min, _) if min < 0));
+    }
+    for l in &lv {
+        if let Some(s) = &l.sub {
+            for (c, _) in &s.cmds {
+                push_unique(&mut v, c.as_bytes());
+            }
+        }
+    }
+    for t in [&b"--nope"[..], b"-h", b"--help"] {
+        push_unique(&mut v, t);
+    }
+    if signed {
+        push_unique(&mut v, b"-5");
+    }
+    for t in [&b"\xff\xfe"[..], L200] {
+        push_unique(&mut v, t);
+    }
+    v
+}
+
+fn grammar_len(n_symbols: usize, thorough: bool) -> usize {
+    let budget: u64 = if thorough { 40_000_000 } else { 1_500_000 };
+    let (lo, hi) = if thorough { (4, 8) } else { (3, 6) };
+    let mut l = lo;
+    while l < hi && (n_symbols as u64).pow(l as u32 + 1) <= budget {
+        l += 1;
+    }
+    l
+}
+
+/// Sweep 2 oracle for one argument list.
+fn check_grammar(sh: &Shape, helps: &[String], args: &[&'static UnixStr], r: &mut Report) {
+    r.eval();
+    r.nontrivial_unique();
+    let key = |k: &str| format!("C20:{}:{k}", sh.name);
+    let case = || case_json(sh, "grammar", args);
+    let bytes: Vec<&[u8]> = args.iter().map(|a| content(a)).collect();
+    let mut fl = Flags::default();
+    let acct = scan(&sh.g, &bytes, &mut fl);
+    let out = (sh.parse)(args);
+    match out {
+        Outcome::Panic(p) => {
+            r.outcome("panic");
+            r.violation(&key("panic"), format!("{} panicked on {}: {p}", sh.name, brief(args)), case());
+        }
+        Outcome::Ok(m, left) => {
+            if left > 0 {
+                r.violation(&key("ok-arguments-left-unread"), format!("{} returned Ok on {} leaving {left} arguments unread", sh.name, brief(args)), case());
+            }
+            match acct {
+                Err(why) => {
+                    r.outcome("ok-unaccountable");
+                    let (k, what) = match why {
+                        Why::Help(_) => ("help-not-error", "a help request (-h/--help where an option may stand)"),
+                        Why::Unknown => ("accepted-unknown-option", "a token that is no option literal, no option's value, no command and fits no free positional slot"),
+                        Why::MissingValue => ("accepted-missing-value", "an option literal as last argument, its value missing"),
+                        Why::Malformed => ("accepted-malformed-value", "a value that is not of the field's type"),
+                        Why::MissingRequired => ("accepted-missing-required", "no occurrence of a required option / argument / command"),
+                    };
+                    r.violation(&key(k), format!("{} accepted {} as {m:?} although it contains {what}", sh.name, brief(args)), case());
+                }
+                Ok(a) => {
+                    if consistent(&sh.g, &m, &a) {
+                        r.outcome(if fl.open { "ok-open-grammar" } else { "ok" });
+                    } else {
+                        r.outcome("ok-inconsistent");
+                        r.violation(
+                            &key("ok-values-inconsistent"),
+                            format!("{} parsed {} to {m:?}; the declared grammar accounts for the arguments as {a:?}", sh.name, brief(args)),
+                            case(),
+                        );
+                    }
+                }
+            }
+        }
+        Outcome::Err { text, debug_ok } => {
+            let mut want_level = None;
+            match acct {
+                Err(Why::Help(l)) => {
+                    r.outcome("err-help");
+                    if !fl.open {
+                        want_level = Some(l);
+                    }
+                }
+                Err(Why::Unknown) => r.outcome("err-unknown"),
+                Err(Why::MissingValue) => r.outcome("err-missing-value"),
+                Err(Why::Malformed) => r.outcome("err-malformed"),
+                Err(Why::MissingRequired) => r.outcome("err-missing-required"),
+                Ok(_) if fl.open => r.outcome("err-open-grammar"),
+                Ok(a) => {
+                    // exactly a rendering of a value assignment: the first sentence of the property applies
+                    r.outcome("err-rejected-valid");
+                    r.violation(
+                        &key(if fl.optlike_value { "roundtrip-optionlike-value" } else { "rejected-valid" }),
+                        format!(
+                            "{} rejected {}, which the declared grammar accounts for without any open choice as {:?}: {:?}",
+                            sh.name,
+                            brief(args),
+                            model_of(&sh.g, &a),
+                            text.as_ref().map(|t| t.lines().last().unwrap_or("").to_string())
+                        ),
+                        case(),
+                    );
+                }
+            }
+            if let Ok(t) = &text {
+                if t.contains("too many characters to write into output buffer") {
+                    r.outcome("err-cause-overflowed-buffer");
+                }
+            }
+            check_err_render(sh, helps, want_level, args, "grammar", &text, debug_ok, r);
+        }
+    }
+}
+
+/// Every sequence of exactly `len` symbols over `0..n`, odometer order.
+fn for_each_seq_exact(n: usize, len: usize, mut f: impl FnMut(&[usize])) {
+    let mut idx = vec![0usize; len];
+    loop {
+        f(&idx);
+        let mut p = len;
+        loop {
+            if p == 0 {
+                return;
+            }
+            p -= 1;
+            idx[p] += 1;
+            if idx[p] < n {
+                break;
+            }
+            idx[p] = 0;
+        }
+    }
+}
+
+/// All lists of exactly `len` arguments starting with symbol `first` (`len == 0`: the empty list).
+fn grammar_chunk(sh: &Shape, helps: &[String], len: usize, first: usize) -> Report {
+    let mut r = Report::new();
+    let alpha: Vec<&'static UnixStr> = alphabet(&sh.g).iter().map(|t| intern(t)).collect();
+    if len == 0 {
+        check_grammar(sh, helps, &[], &mut r);
+        return r;
+    }
+    let mut args: Vec<&'static UnixStr> = Vec::with_capacity(len);
+    for_each_seq_exact(alpha.len(), len - 1, |rest| {
+        args.clear();
+        args.push(alpha[first]);
+        args.extend(rest.iter().map(|&i| alpha[i]));
+        check_grammar(sh, helps, &args, &mut r);
+    });
+    if first == 1 && len == 4 && sh.g.opts.len() % 2 == 0 {
+        let s: Vec<&'static UnixStr> = (0..len).map(|i| alpha[(i * 5 + 3) % alpha.len()]).collect();
+        r.sample(json!({"shape": sh.name, "sweep": "grammar", "args": shown(&s)}));
+    }
+    r
+}
+
+// ---------------------------------------------------------------------------
+// help texts: obtained once, checked against the declaration
+
+fn help_texts(sh: &Shape, r: &mut Report) -> Vec<String> {
+    let helps = match catch(|| (sh.helps)()) {
+        Ok(h) => h,
+        Err(p) => {
+            r.violation(&format!("C20:{}:help-render-panic", sh.name), format!("rendering the help text of {} panicked: {p}", sh.name), json!({"shape": sh.name, "sweep": "help"}));
+            return Vec::new();
+        }
+    };
+    let mut lv = Vec::new();
+    levels(&sh.g, &mut lv);
+    assert_eq!(lv.len(), helps.len(), "harness: {} declares {} levels, {} help texts", sh.name, lv.len(), helps.len());
+    for (g, h) in lv.iter().zip(&helps) {
+        r.eval();
+        let mut missing = Vec::new();
+        if !h.contains("Usage:") {
+            missing.push("Usage:".to_string());
+        }
+        for o in &g.opts {
+            for l in o.lits() {
+                if !h.contains(l) {
+                    missing.push(l.to_string());
+                }
+            }
+        }
+        if let Some(s) = &g.sub {
+            for (c, _) in &s.cmds {
+                if !h.contains(c) {
+                    missing.push(c.to_string());
+                }
+            }
+        }
+        if !missing.is_empty() {
+            r.violation(
+                &format!("C20:{}:help-omits-declared-item", sh.name),
+                format!("help text of level {} of {} does not mention {missing:?}: {h:?}", g.id, sh.name),
+                json!({"shape": sh.name, "sweep": "help"}),
+            );
+        }
+    }
+    helps
+}
+
+// ---------------------------------------------------------------------------
+
+enum Work {
+    Roundtrip(usize, u64, u64),
+    /// shape, list length, first symbol
+    Grammar(usize, usize, usize),
+}
+
+fn c20(args: &Args) -> Report {
+    let shapes = shapes::all();
+    let mut pre = Report::new();
+    let helps: Vec<Vec<String>> = shapes.iter().map(|s| help_texts(s, &mut pre)).collect();
+    let mut work = Vec::new();
+    let mut space_sizes = serde_json::Map::new();
+    let mut lens = serde_json::Map::new();
+    let mut alpha_sizes = serde_json::Map::new();
+    // round-trip work first, largest assignment space first (load balance); the order of the chunks of one shape is kept
+    let mut by_size: Vec<(u64, usize)> =
+        shapes.iter().enumerate().map(|(si, sh)| (Space::new(&sh.g, args.thorough, 2).size(), si)).collect();
+    by_size.sort_by(|a, b| b.0.cmp(&a.0).then(a.1.cmp(&b.1)));
+    for &(size, si) in &by_size {
+        if helps[si].is_empty() {
+            continue;
+        }
+        space_sizes.insert(shapes[si].name.into(), size.into());
+        let nchunks = size.clamp(1, if args.thorough { 128 } else { 16 });
+        for c in 0..nchunks {
+            work.push(Work::Roundtrip(si, c, nchunks));
+        }
+    }
+    for (si, sh) in shapes.iter().enumerate() {
+        if helps[si].is_empty() {
+            continue;
+        }
+        let n = alphabet(&sh.g).len();
+        alpha_sizes.insert(sh.name.into(), n.into());
+        let max_len = grammar_len(n, args.thorough);
+        lens.insert(sh.name.into(), max_len.into());
+        // shortest lists first, so that the first list reported under a key is a shortest one
+        work.push(Work::Grammar(si, 0, 0));
+        for len in 1..=max_len {
+            for f in 0..n {
+                work.push(Work::Grammar(si, len, f));
+            }
+        }
+    }
+    let mut r = par_items(work.len(), args.seed, |i| match work[i] {
+        Work::Roundtrip(si, c, n) => roundtrip_chunk(&shapes[si], &helps[si], args.thorough, c, n),
+        Work::Grammar(si, len, f) => grammar_chunk(&shapes[si], &helps[si], len, f),
+    });
+    pre.merge(r);
+    r = pre;
+    r.rule = "Family of derived parsers (shapes.rs), each with a hand-written declaration of its grammar. \
+        Sweep 1: every assignment of field values (flags both ways; optional fields absent or each domain value; repeated options every \
+        sequence of <= 2 domain values; every command, recursively every assignment of its struct), rendered in every order of the items of a \
+        level that keeps the positionals and the occurrences of one repeated option in order, in every long/short alias form, command last; \
+        must parse to Ok with equal values (assignments with an option value starting with '-' are keyed roundtrip-optionlike-value). \
+        Sweep 2: every argument list of length <= max_len[shape] over the shape's alphabet (all option and command literals of the tree, --nope, -h, \
+        --help, 7, 12x, -5, empty, \\xff\\xfe, 200 bytes); no panic; Ok only if the independent left-to-right account of the list succeeds and the values are \
+        among those it allows; a list that is a rendering without open choices must be Ok; every Err renders (Display, Debug) and starts with the help \
+        text of a struct of the shape (of the addressed struct for a help request). Each (assignment, order, alias form) and each list is generated once; \
+        every case is non-trivial (it is parsed by the derived code)."
+        .into();
+    r.bound("shapes", shapes.len());
+    r.bound("assignments_per_shape", Value::Object(space_sizes));
+    r.bound("grammar_alphabet_size", Value::Object(alpha_sizes));
+    r.bound("grammar_max_len", Value::Object(lens));
+    r.bound("max_repeats", 2);
+    r.bound("value_domains", if args.thorough { "full ladder per type" } else { "2-9 declared values per field" });
+    r
+}
+
+fn replay(v: &Value, r: &mut Report) {
+    let shapes = shapes::all();
+    let name = v["shape"].as_str().unwrap_or("");
+    let Some(sh) = shapes.iter().find(|s| s.name == name) else { panic!("unknown shape {name}") };
+    let helps = help_texts(sh, r);
+    let args: Vec<&'static UnixStr> =
+        v["args"].as_array().map(|a| a.iter().map(|x| intern(&parse_shown(x.as_str().unwrap_or("")))).collect()).unwrap_or_default();
+    println!("replaying shape={name} args={}", brief(&args));
+    match (sh.parse)(&args) {
+        Outcome::Ok(m, left) => println!("parser: Ok({m:?}), {left} arguments left unread"),
+        Outcome::Err { text, .. } => println!("parser: Err, rendered: {text:?}"),
+        Outcome::Panic(p) => println!("parser: PANIC {p}"),
+    }
+    let bytes: Vec<&[u8]> = args.iter().map(|a| content(a)).collect();
+    let mut fl = Flags::default();
+    let acct = scan(&sh.g, &bytes, &mut fl);
+    println!("declared grammar: {acct:?} {fl:?}");
+    if v["sweep"].as_str() == Some("roundtrip") {
+        if let (Ok(a), false) = (&acct, fl.open) {
+            check_roundtrip(sh, &helps, &args, &model_of(&sh.g, a), fl.optlike_value, r);
+        }
+    }
+    check_grammar(sh, &helps, &args, r);
+    for v in r.violations.values() {
+        println!("VIOLATED {}: {}", v.key, v.desc);
+    }
+}
+
+fn main() {
+    let args = parse_args();
+    install_panic_hook();
+    if let Some(p) = &args.replay {
+        let v = read_replay(p);
+        let mut r = Report::new();
+        replay(&v, &mut r);
+        println!("{}", serde_json::to_string_pretty(&r.to_json()).unwrap());
+        std::process::exit(if r.violations.is_empty() { 0 } else { 1 });
+    }
+    let phase = args.phase.clone().unwrap_or_else(|| "c20".into());
+    let r = match phase.as_str() {
+        "c20" => c20(&args),
+        _ => panic!("unknown phase"),
+    };
+    r.write(&args.out);
+}
